@@ -404,6 +404,7 @@ func (e *FnEnc) encodeBlock(b *ssa.BasicBlock) {
 		if _, ok := in.(*ssa.Phi); ok {
 			continue
 		}
+		e.curIdx = idx
 		e.assertsAt(b, idx, in)
 		e.encodeInstr(in)
 		e.flushFacts()
@@ -476,6 +477,20 @@ func (e *FnEnc) evalLoopInv(c *Clause, env *specEnv, ordinal int) (res string) {
 	for _, li := range e.loops {
 		if li.ordinal == ordinal {
 			env.visRange = e.loopRange(li)
+			if env.visRange == nil {
+				// a loop nested in a map-range loop: visited(k) names the iterator of the innermost enclosing
+				// map range (its visited set is not written by the inner loop)
+				var best *loopInfo
+				for _, lo := range e.loops {
+					if lo == li || len(lo.blocks) <= len(li.blocks) || !lo.blocks[li.header] {
+						continue
+					}
+					if r := e.loopRange(lo); r != nil && (best == nil || len(lo.blocks) < len(best.blocks)) {
+						best = lo
+						env.visRange = r
+					}
+				}
+			}
 		}
 	}
 	return e.evalBool(c.E, env, c)
